@@ -19,6 +19,7 @@ EXPLANATION = (
     "Not decided: the parser's classification of arbitrary paragraph shapes as prose or code."
     ' (R7) the namespace id of a fence is hash_str of the whole fence name, only the fixed prefix stripped (no splitting, truncation or folding).'
     " (R8) every path from FunctionScope::enter to a return restores the caller's scope (an error inside a user function called from a named fence or an inline expression must not leave the interpreter on the function's local tables)."
+    ' (R9) a comment extends exactly to the end of its line: the consumer comment() applies after the sigil stops at new_line and at nothing else.'
 )
 
 EXEC = {"MechCode", "FencedMechCode", "Mika", "Float"}
